@@ -71,6 +71,8 @@ impl BlockEncoder {
         }
 
         loop {
+            #[cfg(feature = "verif")]
+            crate::verif::step("BlockEncoder::read");
             self.read_window();
 
             if self.blocks.is_empty() {
@@ -232,6 +234,8 @@ impl BlockEncoder {
 
     fn read_window(&mut self) {
         while !self.read_end && (self.blocks.len() < self.block_multiplex_windows) {
+            #[cfg(feature = "verif")]
+            crate::verif::step("BlockEncoder::read_window");
             match self.read_block() {
                 Ok(_) => {}
                 Err(_) => self.read_end = true, // TODO handle error
